@@ -78,7 +78,7 @@ class Plain:
 
 
 CLASS_KINDS = ("builtin", "module", "nested", "local", "dynamic", "twoarg", "baseonly")
-ARG_KINDS = ("none", "str", "mixed", "nested_json", "nonjson", "lambda", "unreprable", "bad_unpickle")
+ARG_KINDS = ("none", "str", "mixed", "nested_json", "nonjson", "lambda", "unreprable", "bad_unpickle", "scalar_subclass")
 ENCODINGS = ("json", "json_dict", "pickle")
 
 
@@ -98,7 +98,24 @@ def build_exc(kind: str, args: Tuple[Any, ...]) -> BaseException:
     return BaseOnlyExc(*args)
 
 
+def local_scalars() -> Tuple[Any, ...]:
+    """instances of str / int / float subclasses that are defined inside a function: every encoder treats them as scalars, but
+    pickle cannot locate their classes"""
+    class LStr(str):
+        pass
+
+    class LInt(int):
+        pass
+
+    class LFloat(float):
+        pass
+
+    return (LStr("s"), LInt(3), LFloat(1.5))
+
+
 def build_args(kind: str) -> Tuple[Any, ...]:
+    if kind == "scalar_subclass":
+        return local_scalars()
     return {
         "none": (), "str": ("msg",), "mixed": (1, "a", None, 2.5, True), "nested_json": ({"k": [1, 2, {"z": None}]}, [1, "x"]),
         "nonjson": ("a", Plain()), "lambda": ((lambda: 0),), "unreprable": (Unreprable(), "tail"), "bad_unpickle": (TwoArg("x", "y"),),
